@@ -638,7 +638,9 @@ impl Report {
         self.engines.entry(name.to_string()).or_default()
     }
     pub fn add_findings(&mut self, fs: Vec<Finding>) {
-        for f in fs {
+        for mut f in fs {
+            // signatures are matched as one whitespace-free token by the driver
+            f.sig = f.sig.split_whitespace().collect::<Vec<_>>().join("");
             // keep at most a handful per signature
             let n = self.findings.iter().filter(|x| x.sig == f.sig).count();
             if n < 2 && self.findings.len() < 40 {
